@@ -102,6 +102,7 @@ type Result struct {
 	Errors       []TaskError
 	ModelErrors  []string // harness trouble: never a violation
 	ProtocolObs  []string // receive from / send on a closed or nil channel seen by the model before cancellation
+	ClosedOps    int      // the same, counted also after cancellation (a fact for known-finding matching)
 	Steps        int
 	Budget       bool // step budget exhausted before quiescence
 	Cancelled    bool // a premature cancellation was injected and did cut the run short
@@ -282,9 +283,9 @@ func listensCtl(t *task, c chan process.ControlMessage) bool {
 	return false
 }
 
-// doomed: releasing the task makes a send case on a closed channel ready, which
-// panics at once; such a task is offered only its own "closed" transition and
-// never as the partner of a pair (two ready cases would toss Go's hidden coin).
+// doomed: releasing the task makes a case on a closed channel ready (a send panics at
+// once, a receive yields the zero message); such a task is offered only its own "closed"
+// transition and never as the partner of a pair (two ready cases would toss Go's hidden coin).
 func (s *sched) doomed(t *task) bool {
 	if t.state != stOp {
 		return false
@@ -294,6 +295,10 @@ func (s *sched) doomed(t *task) bool {
 		return t.data != nil && s.closed[t.data]
 	case process.SimSelectFwdNP:
 		return t.ctlOut != nil && s.closedCtl[t.ctlOut]
+	case process.SimSelectRecvNP, process.SimRecv, process.SimRecvRaw:
+		// a receive on a closed channel is ready by itself (it yields the zero message): the task
+		// has its own "recvclosed" transition and must not also be set up as a partner
+		return t.data != nil && s.closed[t.data]
 	}
 	return false
 }
@@ -556,6 +561,9 @@ func (s *sched) run() {
 		c := en[idx]
 		s.logf("step %d %s (of %d)", r.Steps, c.desc, len(en))
 		r.Schedule = append(r.Schedule, c.desc)
+		if strings.HasPrefix(c.desc, "recvclosed") || strings.HasPrefix(c.desc, "sendclosed") || strings.HasPrefix(c.desc, "ctlclosed") {
+			r.ClosedOps++
+		}
 		if !canc {
 			switch {
 			case strings.HasPrefix(c.desc, "recvclosed"), strings.HasPrefix(c.desc, "sendclosed"), strings.HasPrefix(c.desc, "ctlclosed"):
